@@ -22,6 +22,10 @@ func Exec(input string) string {
 		return RunL1(input)
 	case strings.HasPrefix(input, "e2e "):
 		return RunE2E(input)
+	case strings.HasPrefix(input, "real "):
+		return RunReal(input)
+	case strings.HasPrefix(input, "multi "):
+		return RunMulti(input)
 	}
 	return "BADOP"
 }
